@@ -49,8 +49,18 @@ fn forward_scan(na: usize, nb: usize, nc: usize) {
     assert!(!cur.valid(), "role=cursor_exhausted_after_last_entry");
 }
 
-// @vt prop=C28 tier=quick feat=sp fs=600 bound="forward scan (cursor_first + advance) over a 3-leaf chain under an interior root, leaf cell counts (na, nb, nc) in {0,1,2}x{0,1}x{1,2} incl. an EMPTY first and/or middle leaf, arbitrary value bytes" outside="deeper trees; more than 2 cells per leaf; symbolic keys (cursors do not compare keys)" timeout=1200 mem=16
-vt_proof_pg! { unwind = 5; fn c28_cursor_forward_scan_with_empty_leaves() {
+// @vt prop=C28 tier=quick feat=sp fs=600 bound="forward scan (cursor_first + advance) over a 3-leaf chain under an interior root with an EMPTY middle leaf: cell counts (2,0,1) and (0,0,2), arbitrary value bytes" outside="deeper trees; more than 2 cells per leaf; symbolic keys (cursors do not compare keys)" timeout=1200 mem=16
+vt_proof_pg! { unwind = 5; fn c28_cursor_scan_empty_middle_leaf() {
+    if kani::any() { forward_scan(2, 0, 1) } else { forward_scan(0, 0, 2) }
+    kani::cover!(true, "w:reached_end");
+}}
+// @vt prop=C28 tier=quick feat=sp fs=600 bound="forward scan over a 3-leaf chain with an EMPTY first leaf / no empty leaf: cell counts (0,1,1) and (1,1,2), arbitrary value bytes" outside="deeper trees; more than 2 cells per leaf" timeout=1200 mem=16
+vt_proof_pg! { unwind = 5; fn c28_cursor_scan_empty_first_leaf() {
+    if kani::any() { forward_scan(0, 1, 1) } else { forward_scan(1, 1, 2) }
+    kani::cover!(true, "w:reached_end");
+}}
+// @vt prop=C28 tier=thorough feat=sp fs=600 bound="forward scan over a 3-leaf chain, all cell counts (na, nb, nc) in {0,1,2}x{0,1}x{1,2}" outside="deeper trees; more than 2 cells per leaf" timeout=3600 mem=24
+vt_proof_pg! { unwind = 5; fn c28_cursor_forward_scan_all_shapes() {
     let na: usize = kani::any(); let nb: usize = kani::any(); let nc: usize = kani::any();
     kani::assume(na <= 2 && nb <= 1 && nc >= 1 && nc <= 2);
     kani::cover!(nb == 0 && na == 2, "w:empty_middle_leaf");
